@@ -3133,6 +3133,7 @@ impl Zeroconf {
         let mut resolved: HashSet<String> = HashSet::new();
         let mut unresolved: HashSet<String> = HashSet::new();
         let mut removed_instances = HashMap::new();
+        let mut no_longer_resolved: HashSet<String> = HashSet::new();
 
         let now = current_time_millis();
 
@@ -3165,15 +3166,22 @@ impl Zeroconf {
                     call_service_listener(&self.service_queriers, ty_domain, event);
                 } else {
                     debug!("Resolved service is not valid: {instance}");
-                    if self.resolved.remove(dns_ptr.alias()) {
+                    // Report the removal under every browsed name (type and subtype) that
+                    // points to the instance, not only under the first one visited.
+                    if self.resolved.contains(dns_ptr.alias()) {
                         removed_instances
                             .entry(ty_domain.to_string())
                             .or_insert_with(HashSet::new)
                             .insert(instance.to_string());
+                        no_longer_resolved.insert(instance.to_string());
                     }
                     unresolved.insert(instance.to_string());
                 }
             }
+        }
+
+        for instance in no_longer_resolved.drain() {
+            self.resolved.remove(&instance);
         }
 
         for instance in resolved.drain() {
